@@ -12,6 +12,8 @@ import (
 	"encoding/hex"
 	"errors"
 	"fmt"
+	"os"
+	"path/filepath"
 	"runtime/debug"
 	"strconv"
 	"strings"
@@ -282,6 +284,33 @@ const hangLimit = 20 * time.Second
 // deadlock: a parser that started goroutines and waits for them for ever).
 var lastParse string
 
+// rmodeFile: the bytes are put into a real file in the process's scratch directory, named by the
+// format's extension, and parsed through the library's file route circuit.Parse(path).
+const rmodeFile = 9
+
+var scratch string
+var scratchN int
+
+// FileRouteUnavailable counts the cases whose scratch file could not be written (they used the
+// reader route instead).
+var FileRouteUnavailable int
+
+func filePath(format, k int) (string, error) {
+	if scratch == "" {
+		d, err := os.MkdirTemp("", "verifsim-c14-")
+		if err != nil {
+			return "", err
+		}
+		scratch = d
+	}
+	scratchN++
+	ext := ".mpclc"
+	if format == 1 {
+		ext = []string{".circ", ".bristol"}[k%2]
+	}
+	return filepath.Join(scratch, fmt.Sprintf("c%d%s", scratchN%4, ext)), nil
+}
+
 func safeParse(format int, data []byte, rmode, k int) parseResult {
 	lastParse = fmt.Sprintf("%s input of %d bytes (sha256 %s)", []string{"mpclc", "bristol"}[format], len(data), shortSum(data))
 	ch := make(chan parseResult, 1)
@@ -302,6 +331,19 @@ func safeParse(format int, data []byte, rmode, k int) parseResult {
 			pr.eofs = rd.EOFs
 			ch <- pr
 		}()
+		if rmode == rmodeFile {
+			path, err := filePath(format, k)
+			if err == nil {
+				err = os.WriteFile(path, data, 0o600)
+			}
+			if err == nil {
+				defer os.Remove(path)
+				pr.circ, pr.err = circuit.Parse(path)
+				return
+			}
+			// no scratch file (read-only or full temporary directory): the reader route instead
+			FileRouteUnavailable++
+		}
 		if format == 0 {
 			pr.circ, pr.err = circuit.ParseMPCLC(rd)
 		} else {
@@ -606,6 +648,13 @@ func (w *world) roundTrip(t *rt.Tape, res *core.Result, smp *sample) *core.Failu
 		rmode, k = 3, 4096 // megabytes are not read byte by byte
 	}
 	smp.Reader = []string{"whole", "1 byte", "random", fmt.Sprintf("at most %d", k)}[rmode]
+	// one round trip in six goes through the file route of the library: a file named by the
+	// format's extension, circuit.Parse(path)
+	if t.Choose(rt.SGen, 6) == 0 {
+		rmode = rmodeFile
+		smp.Reader = "a file on disk, parsed with circuit.Parse(path)"
+		res.Reach["roundtrip.file-route"]++
+	}
 	if len(data) > 4096 {
 		res.Reach["file>4KiB"]++
 	}
